@@ -22,6 +22,7 @@ import io
 
 from fcv import cli_scen as cs
 from fcv import junit_p5c as jp
+from fcv import c20_batches_p6g as p6g
 
 WHAT = "JUnit report does not agree with the exit status"
 
@@ -68,8 +69,17 @@ def _within_f5(bad) -> bool:
     return all(b in F5_CLAUSES for b in bad)
 
 
+def _run_file(sc, wd):
+    """phase-6 directed scenarios carry run options (file names, --diff, stale report, an earlier run at the same paths)"""
+    return p6g.run_file(sc, wd) if sc.get("p6g") is not None else cs.run_file_scenario(sc, wd, junit=True)
+
+
+def _run_dir(d, wd):
+    return p6g.run_dir(d, wd) if d.get("p6g") is not None else cs.run_dir_scenario(d, wd)
+
+
 def evaluate_files(ctx, items, wd):
-    runs = [cs.run_file_scenario(sc, wd, junit=True) for sc, _ in items]
+    runs = [_run_file(sc, wd) for sc, _ in items]
     lines = [cs.cli_line("junit", cs.abstract(sc, r["parts"])) for (sc, _), r in zip(items, runs)]
     reps = ctx.lean(lines) if ctx.driver_ok else [None] * len(lines)
     for (sc, tags), r, line, rep in zip(items, runs, lines, reps):
@@ -92,7 +102,7 @@ def evaluate_files(ctx, items, wd):
                 if hyp:
                     mex, mrep = cs.parse_model_report(rep["model"])
                     if mex != oc or mrep != r["rep"]:
-                        r2 = cs.run_file_scenario(sc, wd, junit=True)
+                        r2 = _run_file(sc, wd)
                         if cs.outcome_class(r2["out"]) != oc or _strip(r2["rep"]) != _strip(r["rep"]):
                             ctx.dist["impl-nonreproducible"] += 1
                             ctx.notes.append("implementation outcome not reproducible on immediate re-run: "
@@ -120,7 +130,7 @@ def evaluate_files(ctx, items, wd):
                 continue
             cls = "F5" if (lean_cls == "F5" if hyp else ev["f5"] is True) and _within_f5(bad) else None
             if cls is None:
-                r2 = cs.run_file_scenario(sc, wd, junit=True)
+                r2 = _run_file(sc, wd)
                 if cs.outcome_class(r2["out"]) != oc or _strip(r2["rep"]) != _strip(r["rep"]):
                     ctx.dist["impl-nonreproducible"] += 1
                     ctx.notes.append("implementation outcome not reproducible on immediate re-run: "
@@ -148,7 +158,7 @@ def _canon_dummy_names(rep, cat):
 
 
 def evaluate_dirs(ctx, items, wd):
-    runs = [cs.run_dir_scenario(d, wd) for d, _ in items]
+    runs = [_run_dir(d, wd) for d, _ in items]
     lines = [cs.dir_line(d, r["resdir"]) for (d, _), r in zip(items, runs)]
     reps = ctx.lean(lines) if ctx.driver_ok else [None] * len(lines)
     for (d, tags), r, line, rep in zip(items, runs, lines, reps):
@@ -241,6 +251,19 @@ def _run_scenarios(ctx):
         # phase 5, directed: data sets with empty fields (tables without rows) in both modes
         evaluate_files(ctx, [jp.gen_empty_file_scenario(ctx.rng, k) for k in range(ctx.scale(60, 2000))], wd)
         evaluate_dirs(ctx, [jp.gen_empty_dir_scenario(ctx.rng, k) for k in range(ctx.scale(32, 800))], wd)
+        # phase 6 (package G), directed: odd file names, many suites / test cases, --diff, stale report, paths used again
+        fb = p6g.gen_batch_files(ctx.rng, ctx.scale(10, 300))
+        evaluate_files(ctx, fb, wd)
+        db = p6g.gen_batch_dirs(ctx.rng, ctx.scale(4, 120))
+        evaluate_dirs(ctx, db, wd)
+        # field names special to formatting layers ({0}, %s, backslash …) in .vtu files: file mode, and mesh files inside trees
+        with p6g.fmt_names():
+            ff = p6g.gen_fmt_file_scenarios(ctx.rng, ctx.scale(30, 600))
+            fd = [p6g.gen_mesh_dir(ctx.rng, ctx.rng.randint(1, 3)) for _ in range(ctx.scale(16, 400))]
+        evaluate_files(ctx, ff, wd)
+        with p6g.mesh_dirs():
+            evaluate_dirs(ctx, fd, wd)
+        ctx.extra["p6g_batch"] = {"file_scenarios": len(fb) + len(ff), "dir_scenarios": len(db) + len(fd)}
         ctx.extra["f5_candidates"] = sum(1 for v in ctx.spec_viol if v.get("class") == "F5")
         # keep one small representative per class first
         ctx.spec_viol.sort(key=lambda v: (v.get("class") is not None, len(str(v["case"]))))
@@ -250,7 +273,7 @@ def _run_scenarios(ctx):
 
 def _check_case(ctx, case):
     """-> (violated clauses, impl observable, class)"""
-    with jp.strict(extend_names=False):
+    with jp.strict(extend_names=False), p6g.mesh_dirs():
         return _check_case_strict(ctx, case)
 
 
@@ -258,12 +281,12 @@ def _check_case_strict(ctx, case):
     wd = cs.Workdir()
     try:
         if "files" in case:
-            r = cs.run_dir_scenario(case, wd)
+            r = _run_dir(case, wd)
             oc = cs.outcome_class(r["out"])
             evs = [cs.py_eval(f["sc"]) for f in cs.dir_categories(case)["compared"]]
             f5 = any(e["f5"] is True for e in evs)
         else:
-            r = cs.run_file_scenario(case, wd, junit=True)
+            r = _run_file(case, wd)
             oc = cs.outcome_class(r["out"])
             f5 = cs.py_eval(case)["f5"] is True
         bad = cs.py_report_check(oc, r["rep"])
